@@ -22,7 +22,7 @@ THEOREMS = [
     "Mro.overrides_eq_super", "Mro.overriding_sound", "Mro.overriding_nodup", "Mro.overriding_duplicate_counterexample",
     "Mro.inherited_members_iff", "Mro.inherited_attribution",
     "Mro.early_eq_mro", "Mro.findEarly_eq_find", "Mro.findEarly_diamond_counterexample",
-    "Mro.docsource_eq_getdoc_partial", "Mro.docsource_private_name_counterexample",
+    "Mro.docsource_private_name_counterexample", "Mro.inherited_private_iff", "Mro.docsource_same_owns", "Mro.overrides_same_owns",
     "Mro.second_pass_swapped_order_counterexample", "Mro.second_pass_canonical", "Mro.second_pass_trigger_independent", "Mro.second_pass_wrong_scope_counterexample",
 ]
 RULE = ("exhaustive: every hierarchy of n<=5 classes in which class i takes any ordered duplicate-free list of bases "
@@ -63,10 +63,6 @@ ASSUMPTIONS = [
     "(pydoctor reports it too; both models agree on `reject`)",
 ]
 PARTIAL = {
-    "Mro.docsource_eq_getdoc_partial": "once Python's name mangling is taken into account, docstring source and 'overrides' equal attribute "
-                                       "lookup only for names that are not class-private (__x); for class-private names the statement is "
-                                       "false of the code (Mro.docsource_private_name_counterexample, open finding "
-                                       "class-private-name-related-across-classes)",
     "compute_mro.init_finalbaseobjects": "modelled as Mro.secondPass over the recorded AST-pass data (raw base names, "
                                          "_initialbaseobjects, resolveName table) and proved trigger independent; that the names "
                                          "denote the classes Python binds is checked by the direct oracle only (import cycles, all "
@@ -719,9 +715,9 @@ def uses_request(p, order: List[int], cont: Dict[int, List[int]], funcs: Dict[in
     ph = p.get("phantom", [])
     ct = [[], []] + [cont[c] for c in ids]
     fn = [[], []] + [funcs[c] for c in ids]
-    return "mro uses %s %s %d %d %s %s %s %s %s" % (ltoken(h), ltoken(sb), EXC, EXC, ltoken(ct), ltoken(fn),
-                                                    ",".join(map(str, p["hidden"])) or "-", ",".join(map(str, order)) or "-",
-                                                    ",".join(map(str, ph)) or "-")
+    return "mro uses %s %s %d %d %s %s %s %s %s 3" % (ltoken(h), ltoken(sb), EXC, EXC, ltoken(ct), ltoken(fn),
+                                                      ",".join(map(str, p["hidden"])) or "-", ",".join(map(str, order)) or "-",
+                                                      ",".join(map(str, ph)) or "-")
 
 
 def pd_uses(p) -> Tuple[Optional[str], List[int], Dict[int, Dict[str, Any]], Optional[str]]:
@@ -765,12 +761,33 @@ def pd_uses(p) -> Tuple[Optional[str], List[int], Dict[int, Dict[str, Any]], Opt
         inh = [(ident(x.parent), NAMES.index(x.name)) for x in util.inherited_members(o) if x.name in NAMES]
         r_cont = [NAMES.index(n) for n in o.contents if n in NAMES]
         r_func = [NAMES.index(n) for n, x in o.contents.items() if n in NAMES and isinstance(x, model.Function)]
-        povr, pdoc = None, "x"
+        if "__p" in o.contents and o.contents["__p"].docstring is not None:
+            r_func.append(103)      # protocol: name + 100 in FUNC = that member has a docstring
+        povr, pdoc, pfield = None, "x", "x"
         if "__p" in o.contents:
+            import re
+
+            def texts(node):
+                if isinstance(node, str):
+                    yield node
+                elif isinstance(node, (list, tuple)):
+                    for k in node:
+                        yield from texts(k)
+                elif hasattr(node, "children"):
+                    yield from texts(node.children)
+            p_ovr, p_in = None, []
             for t in pages.get_override_info(o, "__p"):
-                povr = "".join(str(k) for k in t.children if isinstance(k, str)) or "overrides/overridden"
+                tx = list(texts(t))
+                povr = " ".join(tx)[:40]
+                cls_ids = [int(m.group(1)) for x in tx for m in [re.search(r"C(\d+)", x)] if m]
+                if tx and tx[0].startswith("overrides"):
+                    p_ovr = cls_ids[0] if cls_ids else -1
+                else:
+                    p_in = cls_ids
             sd = model.get_docstring(o.contents["__p"])[1]
             pdoc = ident(sd.parent) if sd is not None else None
+            pfield = "%s;%s;%s" % (opt(p_ovr), show(sorted(p_in)), opt(pdoc))
+
         r = {"exc": bool(model.is_exception(o)), "kind_exc": o.kind is model.DocumentableKind.EXCEPTION,
              "ctor": (ident(ctor.parent), NAMES.index(ctor.name)) if ctor is not None else None,
              "overrides": int(ov[1:]) if ov else None, "over": over, "inh": inh,
@@ -780,7 +797,7 @@ def pd_uses(p) -> Tuple[Optional[str], List[int], Dict[int, Dict[str, Any]], Opt
             show([ident(x) for x in o.mro(False, True)]), show([ident(x) for x in o.mro(True, False)]),
             show([ident(x) for x in o.mro(False, False)]), show(early1), show(early0),
             "1" if r["exc"] else "0", "%d.%d" % r["ctor"] if r["ctor"] else "-", opt(r["overrides"]), show(over),
-            ",".join("%d.%d" % x for x in inh) or "-"]))
+            ",".join("%d.%d" % x for x in inh) or "-", pfield]))
     return "|".join(out), order, res, None
 
 
